@@ -12,7 +12,7 @@ import eqlgen as G
 from core import Case
 
 PID = "C10"
-LEAN_MODULES = ["KrroodVerif.Props.C10", "KrroodVerif.Props.C10Q", "KrroodVerif.Props.C09Lazy"]
+LEAN_MODULES = ["KrroodVerif.Props.C10", "KrroodVerif.Props.C10Q", "KrroodVerif.Props.C10N", "KrroodVerif.Props.C09Lazy"]
 THEOREMS = [
     "KrroodVerif.Eql.C10_trace_vis",
     "KrroodVerif.Eql.C10_trace_rows",
@@ -55,21 +55,49 @@ THEOREMS = [
     "KrroodVerif.Eql.C10Q_exists_streaming_var",
     "KrroodVerif.Eql.C10Q_pull_in_range",
     "KrroodVerif.Eql.C10Q_pulled_le_domain",
+    "KrroodVerif.Eql.C10N_extends",
+    "KrroodVerif.Eql.C10N_extends_query",
+    "KrroodVerif.Eql.C10N_trace_vis",
+    "KrroodVerif.Eql.C10N_stream_cells",
+    "KrroodVerif.Eql.C10N_trace_rows",
+    "KrroodVerif.Eql.C10N_query_vis",
+    "KrroodVerif.Eql.C10N_rows",
+    "KrroodVerif.Eql.C10N_prefix",
+    "KrroodVerif.Eql.C10N_pulled_mono",
+    "KrroodVerif.Eql.C10N_streaming",
+    "KrroodVerif.Eql.C10N_streaming_query",
+    "KrroodVerif.Eql.C10N_streaming_var",
+    "KrroodVerif.Eql.C10N_streaming_all",
+    "KrroodVerif.Eql.C10N_exists_stream",
+    "KrroodVerif.Eql.C10N_exists_prefix",
+    "KrroodVerif.Eql.C10N_exists_adds_nothing",
+    "KrroodVerif.Eql.C10N_forall_blocking",
+    "KrroodVerif.Eql.C10N_forall_early_exit",
+    "KrroodVerif.Eql.C10N_forall_stops",
+    "KrroodVerif.Eql.C10N_forall_step",
+    "KrroodVerif.Eql.C10N_never_pulls_bound",
+    "KrroodVerif.Eql.C10N_body_never_pulls_quantified",
+    "KrroodVerif.Eql.C10N_forall_early_exit_pulled",
+    "KrroodVerif.Eql.C10N_pull_in_range",
+    "KrroodVerif.Eql.C10N_pulled_le_domain",
 ]
 MODEL_FUNCTION = ("Eql.traceQuery / Eql.traceE / Eql.uptoRow / Eql.pulled (Model/EqlTrace.lean); Eql.traceExistsRoot / "
-                  "Eql.traceForAllRoot (Model/EqlTraceQ.lean)")
+                  "Eql.traceForAllRoot (Model/EqlTraceQ.lean); Eql.traceN / Eql.traceQueryN / Eql.existsWalkN / "
+                  "Eql.traceForAllN (Model/EqlTraceN.lean: quantifiers in any position)")
 TRUSTED = [
     "Lean 4.33 kernel; axioms of each theorem listed under coverage.theorems",
     "hand-written trace model Model/EqlTrace.lean (continuation-passing transcription of symbolic.py evaluation)",
+    "hand-written Model/EqlTraceN.lean (Exists / ForAll in any position as walks over the child's event stream; "
+    "validated per run: pull counts per domain and per k equal to the real engine's on every sampled query)",
     "this correspondence harness (logging generators / attribute access), the S-expression driver",
 ]
 ASSUMPTIONS = [
     "CPython generator protocol: a suspended generator performs no work until next() is called",
-    "queries are tree-shaped; quantifiers occur at the root of the condition over a quantifier-free body (Model/EqlTraceQ.lean: "
-    "exists streams, for_all stops pulling once no candidate is left) or not at all",
+    "queries are tree-shaped; quantifiers may occur anywhere below and_/or_/not_ and below each other (Model/EqlTraceN.lean)",
 ]
-RULE = ("corpus, then random root-level exists/for_all over quantifier-free bodies and random quantifier-free condition trees (depth<=3, 1-3 variables, int/object domains as one-shot "
-        "logging generators); each query is rebuilt and consumed for every k in 0..n+1; non-trivial = the query has "
+RULE = ("corpus, then quantifiers below and_/or_/not_ and inside other quantifiers (hand-shaped positions + the shared "
+        "generator's quantified trees), random root-level exists/for_all over quantifier-free bodies and random quantifier-free condition trees (depth<=3, 1-3 variables, int/object domains as one-shot "
+        "logging generators); each query is rebuilt and consumed for every k in 0..n+1, each time followed by a second evaluation of the same object of which one result is taken; non-trivial = the query has "
         ">=2 results and some domain is not fully pulled at k=1; distinct by case text")
 
 LOG = []
@@ -115,10 +143,28 @@ def generate(rng, tier, n):
                 out.append(Case(f"(qpulls {kind} {v} {k})", ("quantified-pulls", kind), "exhaustive"))
     # a quantifier at the root over a quantifier-free body: exists hands a witness on the moment it is found, for_all
     # stops pulling the universal variable once no candidate is left
+    del ROOTQ[:]
     for _ in range(max(60, n // 5)):
         q = gen_root_quantifier(rng)
         tags = ["root-" + q["cond"][0], "nsel%d" % len(q["sel"]), "nvars%d" % len(q["doms"])] + sorted(set(G.cond_ops(q["cond"])))
         out.append(Case(G.sx_query(q), tuple(tags), "random", q))
+        ROOTQ.append(out[-1])
+    # quantifiers BELOW other operators and below each other (Model/EqlTraceN.lean, Props/C10N.lean): hand-shaped
+    # positions (half) and the quantified trees of the shared generator that are not root-only (half)
+    del NESTED[:]
+    want = max(120, n // 4)
+    while len(NESTED) < want:
+        if len(NESTED) % 2 == 0:
+            q = gen_nested_quantifier(rng)
+        else:
+            q = G.gen_query(rng, quantifiers=True)
+            if not is_nested(q["cond"]):
+                continue
+        tags = (["nested", "nested-" + nested_position(q["cond"]), "nsel%d" % len(q["sel"]), "nvars%d" % len(q["doms"])]
+                + sorted(set(G.cond_ops(q["cond"]))))
+        case = Case(G.sx_query(q), tuple(tags), "random", q)
+        NESTED.append(case)
+        out.append(case)
     while len(out) < n:
         q = G.gen_query(rng, quantifiers=False)
         ops = G.cond_ops(q["cond"])
@@ -144,6 +190,126 @@ def gen_root_quantifier(rng):
     kind = rng.choice(["exists", "forall"])
     sel = [("var", v) for v in rng.sample(vs, rng.randrange(1, nv + 1))]
     return {"sel": sel, "cond": (kind, "u", body), "objs": objs, "doms": doms, "kinds": kinds}
+
+
+ROOTQ = []    # the root-level quantifier cases of the last `generate`
+NESTED = []   # the nested-quantifier cases of the last `generate` (re-used by `extra_coverage`)
+
+
+def is_nested(c) -> bool:
+    """a quantifier somewhere that is not the one and only quantifier at the root of the condition"""
+    if c is None:
+        return False
+    ops = G.cond_ops(c)
+    nq = sum(1 for o in ops if o in ("exists", "forall"))
+    return nq >= 2 or (nq == 1 and c[0] not in ("exists", "forall"))
+
+
+def nested_position(c) -> str:
+    """operator directly above the first quantifier that has one ('root' if the only parentless ones)"""
+    def walk(c, parent):
+        if c[0] in ("exists", "forall"):
+            if parent is not None:
+                return parent
+            return walk(c[2], "q")
+        if c[0] in ("and", "or"):
+            return walk(c[1], c[0]) or walk(c[2], c[0])
+        if c[0] == "not":
+            return walk(c[1], "not")
+        return None
+    return walk(c, None) or "root"
+
+
+def gen_nested_quantifier(rng):
+    """exists/for_all as the left or right operand of and_/or_, below not_, and inside another quantifier's body.
+    Most bodies start with a conjunct that binds the quantified variable in every result (an `Exists` over a body with
+    a result that does not bind its variable raises KeyError — kept at a low rate)."""
+    nv = rng.choice([1, 2, 2])
+    vs = ["x", "y"][:nv]
+    falsy = rng.random() < 0.3
+    lo = 0 if falsy else 1
+    while True:
+        kinds, objs, doms = G.gen_world(rng, vs + ["u", "v"], falsy=falsy, max_objs=5)
+        if doms["u"] and doms["v"] and all(doms[v] for v in vs):
+            break
+    G.EXT["index_ok"] = False
+
+    def atom(names):
+        return G.gen_atom(rng, names, kinds, lo, must=rng.choice(names))
+
+    def quant(qv, free, inner_q=None):
+        kind = rng.choice(["exists", "exists", "forall"])
+        names = free + [qv]
+        parts = []
+        if rng.random() < 0.85:
+            parts.append(G.gen_atom(rng, names, kinds, lo, must=qv))
+        if rng.random() < 0.7 or not parts:
+            parts.append(G.gen_cond(rng, names, kinds, rng.randrange(0, 2), [], lo, allow_q=False))
+        if inner_q is not None:
+            parts.append(quant(inner_q, names))
+            if rng.random() < 0.3:
+                parts.reverse()
+        body = parts[0]
+        for p in parts[1:]:
+            body = ("and", body, p) if rng.random() < 0.8 else ("or", body, p)
+        return (kind, qv, body)
+
+    shape = rng.randrange(0, 9)
+    a = atom(vs)
+    if shape == 0:
+        cond = ("and", a, quant("u", vs))
+    elif shape == 1:
+        cond = ("and", quant("u", vs), a)
+    elif shape == 2:
+        cond = ("or", a, quant("u", vs))
+    elif shape == 3:
+        cond = ("or", quant("u", vs), a)
+    elif shape == 4:
+        cond = ("and", a, ("not", quant("u", vs)))
+    elif shape == 5:
+        cond = quant("u", vs, inner_q="v")                      # a quantifier in a quantifier's body
+    elif shape == 6:
+        cond = ("and", a, quant("u", vs, inner_q="v"))
+    elif shape == 7:
+        cond = ("and", ("and", a, quant("u", vs)), quant("v", vs))   # two quantifiers in sequence
+    else:
+        cond = ("not", ("and", a, quant("u", vs)))
+    sel = [("var", v) for v in rng.sample(vs, rng.randrange(1, nv + 1))]
+    used = set(G.c_allvars(cond)) | set(vs)
+    return {"sel": sel, "cond": cond, "objs": objs, "doms": {n: d for n, d in doms.items() if n in used},
+            "kinds": {n: k for n, k in kinds.items() if n in used}}
+
+
+def extra_coverage():
+    """equality rate of the pull counts (impl == trace model, per domain and per k) on the nested-quantifier cases of
+    this run; the check only requires impl <= model"""
+    import core
+    if not NESTED:
+        return {}
+    cases = list(NESTED) + list(ROOTQ)
+    impl = run_impl(cases)
+    drv = core.Driver(PID).run([c.line for c in cases])
+    le = eq = exc = lazy = 0
+    for i, d in zip(impl, drv):
+        m = d.get("model", "")
+        if compare(i, m):
+            le += 1
+        if i.startswith("exc:") and m == "exc":
+            exc += 1
+            eq += 1
+        elif i.startswith("silent=1 prefix=1 ") and i.split(" ", 2)[2] == m:
+            eq += 1
+            k1 = re.search(r"k1:\[([^\]]*)\]", m)
+            end = re.search(r"end:\[([^\]]*)\]", m)
+            if k1 and end and k1.group(1) != end.group(1):
+                lazy += 1
+    return {"nested_quantifiers": {"cases": len(cases), "impl_le_model": le, "impl_eq_model": eq,
+                                   "of_which_exception_on_both_sides": exc,
+                                   "equal_and_first_result_before_exhaustion": lazy,
+                                   "fragment_N_per_driver": sum(1 for d in drv if d.get("frag") == "N"),
+                                   "root_level_among_them": sum(1 for d in drv if "altq" in d),
+                                   "root_level_traceQueryQ_obs_eq_traceQueryN_obs":
+                                       sum(1 for d in drv if "altq" in d and d["altq"] == d.get("model"))}}
 
 
 def revive(case: Case) -> Case:
@@ -216,11 +382,24 @@ def _consume(q, k, which=0):
             break
         rows.append(G.show_row((r,)) if single else G.show_row(tuple(r[kk] for kk in sel)))
     pulled = [pulls[n] for n in order]
+    _consume.last_hist = None
     if k is not None:
         # the consumer stops here (iterator abandoned); evaluating the SAME query object again must give the full
         # sequence, of which the k results above are a prefix
         if hasattr(it, "close"):
             it.close()
+        # HISTORY: a second evaluation of the same query object over the now partly cached domains, of which ONE result
+        # is taken: the cached prefix costs no pull, every further value needed costs one — so the generators have
+        # given out max(what k results need, what one result needs) elements, no more (a new evaluation must not
+        # first drain what an earlier, abandoned one left unread)
+        it2 = iter(query.evaluate())
+        try:
+            next(it2)
+        except StopIteration:
+            pass
+        _consume.last_hist = [pulls[n] for n in order]
+        if hasattr(it2, "close"):
+            it2.close()
         again = [G.show_row((r,)) if single else G.show_row(tuple(r[kk] for kk in sel)) for r in query.evaluate()]
         _consume.last_again = again
     return silent, rows, pulled
@@ -317,12 +496,15 @@ def _one(case: Case) -> str:
         silent, full, endp = _consume(q, None, which)
         n = len(full)
         parts = []
+        hist = []
         prefix_ok = True
         for k in range(n + 1):
             s_k, rows_k, p_k = _consume(q, k, which)
             silent = silent and s_k
             prefix_ok = prefix_ok and rows_k == full[:k] and _consume.last_again == full
             parts.append(f"k{k}:[" + ",".join(map(str, p_k)) + "]")
+            hist.append(f"h{k}:[" + ",".join(map(str, _consume.last_hist)) + "]")
+        parts += hist
         return (f"silent={int(silent)} prefix={int(prefix_ok)} n={n} " + " ".join(parts)
                 + " end:[" + ",".join(map(str, endp)) + "]")
     except Exception as e:  # noqa: BLE001
@@ -337,7 +519,7 @@ def _parse(obs: str):
     m = re.search(r"n=(\d+)", obs)
     if not m:
         return None
-    vecs = {k: [int(x) for x in v.split(",") if x] for k, v in re.findall(r"(k\d+|end):\[([^\]]*)\]", obs)}
+    vecs = {k: [int(x) for x in v.split(",") if x] for k, v in re.findall(r"(k\d+|h\d+|end):\[([^\]]*)\]", obs)}
     return int(m.group(1)), vecs
 
 
